@@ -109,6 +109,10 @@ def value(T, v, route=None, sch=None):
     k = B[0]
     if k in U.SIMPLE or k == 'any':
         a, kw = scalar_arg(B, v)
+        if route is not None and k in ('octs', 'oid', 'int', 'char') and len(B) == (2 if k == 'char' else 1):
+            alt = _scalar_from(s, B, v, route.scalar_source(k))
+            if alt is not None:
+                return alt
         return s.clone(*a, **kw)
     obj = s.clone()
     fill(obj, B, v, route)
@@ -177,6 +181,60 @@ def fill(obj, B, v, route=None):
         raise ValueError(B)
 
 
+def _scalar_from(s, B, v, how):
+    """The same scalar value handed to the type in another of the forms its constructor documents: another value
+    object, hex digits, a tuple of octets, a dotted string, the text of a number, encoded octets; for OCTET STRING also
+    a character-string object whose own codec is not the OCTET STRING's (its octets are what counts).  None: no such
+    form for this value."""
+    k = B[0]
+    if how == 'plain':
+        return None
+    if k == 'octs':
+        v = bytes(v)
+        if how == 'object':
+            return s.clone(univ.OctetString(v))
+        if how == 'hex' and v:
+            # (a hexValue= keyword is ignored when cloning from a value object, e.g. a DEFAULT member's schema)
+            return s.clone(univ.OctetString(hexValue=v.hex()))
+        if how == 'tuple' and v:
+            return s.clone(tuple(v))
+        if how == 'charobj' and v:
+            for cls, codec in ((char.BMPString, 'utf-16-be'), (char.UTF8String, 'utf-8'), (char.UniversalString, 'utf-32-be')):
+                try:
+                    text = v.decode(codec)
+                    if text.encode(codec) != v:
+                        continue
+                    src = cls(text)
+                    if src.asOctets() != v:
+                        continue
+                except Exception:
+                    continue
+                return s.clone(src)
+        return None
+    if k == 'oid':
+        if how == 'object':
+            return s.clone(univ.ObjectIdentifier(tuple(v)))
+        if how == 'str':
+            return s.clone('.'.join(str(x) for x in v))
+        return None
+    if k == 'int':
+        if how == 'object':
+            return s.clone(univ.Integer(v))
+        if how == 'str':
+            return s.clone(str(v))
+        return None
+    if k == 'char':
+        codec = U.CHAR_KINDS[B[1]][1]
+        if how == 'object':
+            return s.clone(s.clone(v))
+        if how == 'bytes':
+            try:
+                return s.clone(v.encode(codec))
+            except Exception:
+                return None
+    return None
+
+
 class Route(object):
     """Construction-route selector for C04 histories."""
 
@@ -205,6 +263,12 @@ class Route(object):
     def list_route(self):
         r = self.rng.choice(['append', 'extend', 'setpos', 'setpos-descending', 'setpos-shuffled', 'setitem-shuffled'])
         self.used.add('list-' + r)
+        return r
+
+    def scalar_source(self, k):
+        r = self.rng.choice(['plain', 'plain', 'object', 'hex', 'tuple', 'charobj', 'str', 'bytes'])
+        if r != 'plain':
+            self.used.add('scalar-from-' + r)
         return r
 
     def subtype_member(self):
@@ -236,6 +300,9 @@ class OmitDefaults(Route):
 
     def subtype_member(self):
         return False
+
+    def scalar_source(self, k):
+        return 'plain'
 
 
 def pytree(T, v, native_style=False):
